@@ -178,7 +178,8 @@ theorem insertDefTableOpts_withOpts (ed : Editor α) (o' : Options α) (pos : In
     (ed.withOpts o').insertDefTableOpts cx pos defs width o =
       (ed.insertDefTableOpts cx pos defs width o).map (fun r => r.withOpts o') := by
   rw [map_eq]
-  unfold Editor.insertDefTableOpts
+  simp only [Editor.insertDefTableOpts_eq_core]
+  unfold Editor.insertDefTableOptsCore
   dsimp only
   simp only [map_bind]
   congr 1
